@@ -366,3 +366,27 @@ func phase3c() {
 		}
 	}
 }
+
+type fixedCodec struct{ data []byte }
+
+func (c fixedCodec) Size() int { return len(c.data) }
+func (c fixedCodec) WriteTo(b []byte, w sem.Sink) int {
+	for i, x := range c.data {
+		b[i] = x
+	}
+	return len(c.data)
+}
+
+func phase3d() {
+	for _, d := range [][]byte{nil, {7}, {1, 2, 3}, {9, 8, 7, 6, 5}} {
+		d := d
+		ex(fmt.Sprintf("g_sem_Pack bytes codec_size codec_write ext_dirty %s 42", bs(d)), func() string {
+			r := sem.Pack(fixedCodec{d}, 42)
+			return "(" + bs(d) + ", " + bs(r) + ")"
+		})
+		ex(fmt.Sprintf("g_sem_PackTwice bytes codec_size codec_write ext_dirty %s 42", bs(d)), func() string {
+			r, k := sem.PackTwice(fixedCodec{d}, 42)
+			return "(" + bs(d) + ", " + bs(r) + ", " + z(int64(k)) + ")"
+		})
+	}
+}
